@@ -2,7 +2,6 @@
    (parsed, built, well-formed or not) and every name and value. *)
 From V.model Require Import Base Deb822Lex Deb822Parse Grammar Lossy Deb822Edit.
 From V.proofs Require Import BaseP GrammarAccP LossyRtP.
-Set Default Timeout 60.
 
 Definition pitems (cs : list tree) : list (str * str) := items (Node PARAGRAPH cs).
 Definition is_entry (e : tree) : bool := is_node e && is_kind ENTRY e.
